@@ -3,7 +3,9 @@
 
 use crate::exec::World;
 use crate::hashsigs::Node;
-use crate::lib_iface::{HashId, Outcome};
+use crate::lib_iface::HashId;
+#[cfg(feature = "hooks")]
+use crate::lib_iface::Outcome;
 use crate::model;
 use crate::util::hex;
 
